@@ -481,7 +481,7 @@ func (x *ctx) runScenario(sc Scenario, dir string) {
 				} else {
 					x.dist("corr-skipped-leader-file-not-at-aofsize")
 				}
-			} else {
+			} else if valid {
 				x.dist("corr-skipped-follower-file-not-flushed")
 			}
 			if ses.StallAt >= 0 {
